@@ -13,7 +13,8 @@ EXPLANATION = (
     "commit that follows all of it; both back-ends define the same storage protocol with the same parameter lists and "
     "NameServer uses only methods both have; every deletion path of NameServer.remove excludes the server's own entry; an "
     "argument whose length the SQL search binds as a count reaches it as a set; removal counts are the length of the very list "
-    "that was removed / 1 after a guarded delete. Not decided: sqlite's own semantics, reopen equality, histories, injected "
+    "that was removed / 1 after a guarded delete; a missing key raises KeyError on both back-ends; the generic filter matches "
+    "literally (startswith on the raw name, regex compiled without flags). Not decided: sqlite's own semantics, reopen equality, histories, injected "
     "statement failures."
 )
 
